@@ -145,7 +145,27 @@ func (w *World) Unit(name string) (*Unit, error) {
 func (w *World) build(name string, fn *load.Func, lit *ast.FuncLit, recv *ast.FieldList, ft *ast.FuncType, body *ast.BlockStmt, outer *flow.Canon) *Unit {
 	info := fn.Pkg.TypesInfo
 	u := &Unit{W: w, Name: name, Fn: fn, Lit: lit, Body: body, Type: ft, pc: map[*flow.Block]*flow.F{}}
-	u.G = flow.BuildInlining(body, w.noReturn(info), w.inliner(fn, false))
+	u.G = flow.BuildWith(body, flow.BuildOpts{NoReturn: w.noReturn(info), Inline: w.inliner(fn, false), RangeCond: func(rs *ast.RangeStmt) ast.Expr {
+		// for i := range X / for i, v := range X over a slice, array or string: i < len(X) inside the body
+		id, ok := rs.Key.(*ast.Ident)
+		if !ok || id.Name == "_" {
+			return nil
+		}
+		t := info.TypeOf(rs.X)
+		if t == nil {
+			return nil
+		}
+		switch x := t.Underlying().(type) {
+		case *types.Slice, *types.Array:
+		case *types.Basic:
+			if x.Info()&types.IsString == 0 {
+				return nil
+			}
+		default:
+			return nil
+		}
+		return &ast.BinaryExpr{X: id, Op: token.LSS, OpPos: rs.For, Y: &ast.CallExpr{Fun: &ast.Ident{Name: "len", NamePos: rs.For}, Lparen: rs.For, Args: []ast.Expr{rs.X}, Rparen: rs.For}}
+	}})
 	var alias map[types.Object]flow.LocalAlias
 	if outer == nil && w.Vocab != nil {
 		alias = w.aliasesFor(name, info, recv, ft, body, u.G.Inlined)
